@@ -5,6 +5,9 @@ CONSTANTS
   MaxObjFields = 2
   MaxUnionFields = 1
   MapExprs = FALSE
+  Kinds = {"enum","alias","object","union"}
+  Bearer = TRUE
+  Decls = {"safe","unsafe","dnl"}
   ArgMode = "perm"
   MaxArgs = 0
   EmitMod = 1
